@@ -95,10 +95,17 @@ def main():
         rc, o = sh(['git', '-C', '/repo', 'apply', f'{out}/patch.diff'])
         if rc != 0:
             print('patch does not apply to /repo:', o); return 2
+        # the checks run on scratch copies of the Lean project and the work directory, so that the
+        # facts regenerated from the modified /repo never land in /verif/lean
+        scratch = f'/tmp/seedrun-{os.getpid()}'
+        sh(['rm', '-rf', scratch]); os.makedirs(scratch)
+        sh(['rsync', '-a', f'{V}/lean/', f'{scratch}/lean/'])
+        os.makedirs(f'{scratch}/work', exist_ok=True)
         for c in checks:
             t0 = time.time()
             rc, o = sh([f'{V}/bin/check', c, '--tier', 'quick'], cwd=V,
-                       extra={'VERIF_EVIDENCE_DIR': f'{out}/evidence', 'VERIF_REPLAY_DIR': out})
+                       extra={'VERIF_EVIDENCE_DIR': f'{out}/evidence', 'VERIF_REPLAY_DIR': out,
+                              'VERIF_LEAN_DIR': f'{scratch}/lean', 'VERIF_WORK_DIR': f'{scratch}/work'})
             vio = [l for l in o.splitlines() if l.startswith('VIOLATION')]
             detections[c] = {'exit': rc, 'violation_line': vio[0] if vio else None,
                              'with_failing_input': bool(vio) and 'no-failing-input-found' not in vio[0],
@@ -108,6 +115,7 @@ def main():
     finally:
         sh(['git', '-C', '/repo', 'checkout', '--', '.'])
         sh(['git', '-C', '/repo', 'clean', '-fdq'])
+        sh(['rm', '-rf', f'/tmp/seedrun-{os.getpid()}'])
     meta['detections'] = detections
     meta['detected'] = any(d['exit'] == 1 and d['violation_line'] for d in detections.values())
     if notes and os.path.exists(notes):
